@@ -37,6 +37,12 @@ PROFILE = Profile(
     leaves={"coef", "const", "lit", "x", "zero", "eye"},
     max_rank=2, elements="all", manifolds=True,
 )
+# complex stratum: holomorphic operators plus conj/real/imag, complex field values, *real* perturbation parameter tau
+CPLX = Profile(
+    ops={"arith", "index", "tensor", "compound", "deriv", "ipow", "var", "complexops", "holo"},
+    leaves={"coef", "const", "lit", "x", "zero", "eye"}, cplx=True,
+    max_rank=2, elements="all", manifolds=True, weights={"sdiv": 0, "inv": 0},
+)
 NONLINEAR = {"mul", "pow", "div", "fn", "cond", "abs", "inner", "dot", "outer", "det", "inv", "cofac", "atan2",
              "bessel", "max", "min", "sign", "cross"}
 
@@ -80,8 +86,10 @@ def wrt_entry(draw, G, world, name, allow_expr=True):
 
 @st.composite
 def cases(draw, tier):
-    world = draw(worlds(PROFILE))
-    G = Gen(draw, world, PROFILE)
+    cplx = draw(st.integers(0, 5)) == 0
+    prof = CPLX if cplx else PROFILE
+    world = draw(worlds(prof))
+    G = Gen(draw, world, prof)
     g = world["gdim"]
     sh = draw(st.sampled_from([(), (), (g,), (g, g)]))
     F = G.expr(sh, (), draw(st.integers(1, 3)))
@@ -155,7 +163,7 @@ def cases(draw, tier):
                 cd2 = {"g": gname, "dg": G.expr(gsh + wsh, (), 1)}
         extra = {"expr": F2, "cd": cd2}
     return {"world": world, "expr": F, "vars": G.vars, "wrt": wrt, "auto": auto, "second": second, "cd": cd,
-            "extra": extra, "env_seed": draw(st.integers(0, 10**6))}
+            "extra": extra, "cplx": cplx, "env_seed": draw(st.integers(0, 10**6))}
 
 
 def strategy(tier):
@@ -262,7 +270,7 @@ def check_case(case):
         raise Discard("jet order > 4")
     nonzero = False
     for rep in range(2):
-        env = make_env(case, rep)
+        env = make_env(case, rep, cplx=bool(case.get("cplx")))
         exp = 0.0
         for Fk, cdk in parts:
             I = Interp(env, order=order, nextra=ntau)
@@ -311,6 +319,8 @@ def check_case(case):
         labels.append("auto_argument")
     if case.get("extra"):
         labels.append("two_derivatives_in_one_dag")
+    if case.get("cplx"):
+        labels.append("complex")
     return {"nontrivial": nonzero and bool(ops & NONLINEAR), "labels": labels or ["plain"]}
 
 
